@@ -230,6 +230,8 @@ func (e *Engine) recheckHeld(n *node, qs []query) {
 			if ans, ok := e.ask(line); ok {
 				if t := strings.Fields(ans); len(t) == len(qs) {
 					mt = t
+				} else {
+					e.fatal("driver answer to %q for a held reader: %d tokens, want %d", line, len(t), len(qs))
 				}
 			}
 		}
@@ -258,7 +260,10 @@ func (e *Engine) recheckHeld(n *node, qs []query) {
 			// a wrong answer that a FRESH reader of the same block gives too is not about holding
 			// the reader: the fresh views report it under its own cause
 			if fresh := e.freshReader(n, hr); fresh != nil && readOne(fresh, q) == got {
-				e.hit("held:wrong-like-a-fresh-reader(reported-there)")
+				// (fresh by-hash views and the source's by-number views are sampled: report it here,
+				// under the Sig a fresh view would give it, so that it cannot get lost)
+				e.hit("held:wrong-like-a-fresh-reader(reported-as-fresh)")
+				e.reportFresh(n, hr.label, hr.n, q, got, want, st, nil, -1)
 				continue
 			}
 			kind := q.Kind
